@@ -223,3 +223,40 @@ def realblock(w):
     w.claim(f'all {n} compared fields agree with the independent decoding (first differences: {bad[:4]})', not bad)
     w.claim('a non-trivial number of fields was compared', n > 300)
     w.cover(f'fields compared: {n}; pruned/raw parts skipped: {len(cx.skipped)}')
+
+
+# ---- BinTree: leaves at different depths --------------------------------------------------------------------------------------
+
+_BT = {'leaf': 'A', 'balanced': ('A', 'B'), 'left_deep': (('A', 'B'), 'C'), 'right_deep': ('A', ('B', 'C')),
+       'zigzag': (('A', ('B', 'C')), 'D'), 'both': (('A', 'B'), ('C', 'D'))}
+
+
+@obligation('C16.bintree', 'C16', cases=[{'shape': s} for s in _BT], fuc=[BL + '.BinTree.deserialize', 'pytoniq_core.tlb.utils.deserialize_shard_hashes'],
+            descr='BinTree X (bt_leaf$0 leaf:X / bt_fork$1 left:^(BinTree X) right:^(BinTree X)), the container of ShardHashes, in six tree '
+                  'shapes, among them trees whose leaves sit at DIFFERENT depths (fork(fork(A,B),C), fork(A,fork(B,C)), '
+                  'fork(fork(A,fork(B,C)),D)): BinTree.deserialize returns the leaves in left-to-right order (ascending shard prefix), '
+                  'each positioned after its tag bit with its payload unread; leaf payloads symbolic')
+def bintree(w, shape):
+    from pytoniq_core.boc.builder import Builder
+    M = importlib.import_module(BL)
+    order, vals = [], {}
+
+    def build(t):
+        if isinstance(t, str):
+            vals[t] = w.int('leaf' + t, 0, (1 << 32) - 1)
+            order.append(t)
+            return Builder().store_bit(0).store_uint(vals[t], 32).end_cell()
+        l, r = build(t[0]), build(t[1])
+        return Builder().store_bit(1).store_ref(l).store_ref(r).end_cell()
+    root = build(_BT[shape])
+    k, got = call(M.BinTree.deserialize, root.begin_parse())
+    w.claim(f'does not raise ({got if k != "ok" else ""})', k == 'ok')
+    if k != 'ok':
+        return
+    lst = got.list
+    w.claim(f'{len(order)} leaves', isinstance(lst, list) and len(lst) == len(order))
+    if isinstance(lst, list) and len(lst) == len(order):
+        for i, name in enumerate(order):
+            kk, v = call(lst[i].load_uint, 32)
+            w.claim(f'leaf {i} is {name} (left to right), positioned after its tag bit', kk == 'ok' and v == vals[name])
+            w.claim(f'leaf {i}: nothing else in it', lst[i].remaining_bits == 0 and lst[i].remaining_refs == 0)
